@@ -25,6 +25,7 @@ import (
 //           backend-fifo : one real backend client, three senders, backend echoing; request i gets reply i
 //           odd-names : every command name over {CR, LF, x} up to length 5 at the head / in the middle of a pipeline
 //           cold-start : pipelines whose commands find the backend connection still being established
+//           many-in-flight : one MGET/DEL over 1023..1100 keys of one busy node (more than its client's queue holds)
 //           long-pipeline : 40 requests (> the 32-entry session queue) at the default schedule, cut anywhere
 // oracle    the bytes a client receives parse (independent codec) into exactly as many replies as requests,
 //           reply k is the single-server answer to request k, nothing follows the last reply
@@ -62,6 +63,9 @@ func c01check(s *vfStack, tag string, reqs []c01req, c *vfClient) {
 		sched.Fail(kind+"-replies-than-requests / "+c01names(reqs), fmt.Sprintf("%s: %d requests, %d replies: %v", tag, len(reqs), len(replies), replies))
 	}
 	for i, r := range reqs {
+		if r.name == "any-single-reply" {
+			continue // (that it is exactly one reply is what the count and the neighbours' replies decide)
+		}
 		if r.args == nil {
 			if replies[i].Kind != '-' {
 				sched.Fail("reply-order-or-content / "+r.name, fmt.Sprintf("%s: reply %d to an unsupported command is %s", tag, i, replies[i]))
@@ -89,6 +93,8 @@ func c01names(reqs []c01req) string {
 	switch {
 	case has["name-with-crlf"]:
 		return "pipeline with a CR LF command name"
+	case has["any-single-reply"]:
+		return "pipeline with CR LF in the argument of a locally answered command"
 	case has["nosuch"]:
 		return "pipeline with an unsupported command"
 	case has["mget"] || has["del"]:
@@ -180,10 +186,16 @@ func c01oddNamesBody() {
 		return c01req{raw: resp.Encode(resp.Cmd(args...)), args: args, name: strings.ToLower(args[0])}
 	}
 	var reqs []c01req
-	if sched.Choose(sched.ClsInput, 2, "shape") == 0 {
+	switch sched.Choose(sched.ClsInput, 4, "shape") {
+	case 0:
 		reqs = []c01req{odd, cmd("PING")}
-	} else {
+	case 1:
 		reqs = []c01req{cmd("GET", a), odd, cmd("GET", b)}
+	case 2:
+		// the same bytes as the argument of commands the proxy answers itself
+		reqs = []c01req{{raw: resp.Encode(resp.Cmd("PING", name)), name: "any-single-reply"}, cmd("PING"), cmd("GET", a)}
+	case 3:
+		reqs = []c01req{cmd("GET", b), {raw: resp.Encode(resp.Cmd("SELECT", name)), name: "any-single-reply"}, {raw: resp.Encode(resp.Cmd("INFO", name)), name: "any-single-reply"}, cmd("PING")}
 	}
 	var raw []byte
 	for _, r := range reqs {
@@ -222,6 +234,39 @@ func c01coldBody() {
 	sched.WaitQuiescent()
 	c01check(s, fmt.Sprintf("first pipeline after start %d", pi), reqs, c)
 	sched.SetOutcome(fmt.Sprint(pi))
+}
+
+// C01 (H): more requests in flight on one backend connection than its queue of written-but-unanswered requests
+// holds (1024): one MGET (or DEL) over n keys of one node while the node is busy, then the node answers.
+func c01manyInFlightBody() {
+	cl := cluster.New(2, 0, 2)
+	s := vfStartStack(cl, vfSvcConfig(0, nil, 0))
+	n := []int{1023, 1024, 1025, 1100}[sched.Choose(sched.ClsInput, 4, "keys")]
+	kind := []string{"MGET", "DEL"}[sched.Choose(sched.ClsInput, 2, "command")]
+	w := s.NewClient("warm")
+	var keys []string
+	for i := 0; i < n; i++ {
+		k := cl.KeyInGroup("k", 0, i)
+		keys = append(keys, k)
+		if i%7 != 3 { // some keys do not exist
+			w.Send(resp.Encode(resp.Cmd("SET", k, fmt.Sprint("v", i))))
+			refExec(s.ref, []string{"SET", k, fmt.Sprint("v", i)})
+		}
+	}
+	sched.WaitQuiescent()
+	w.Pending()
+	m0 := cl.Masters()[0]
+	m0.Stalled = true
+	c := s.NewClient("c0")
+	args := append([]string{kind}, keys...)
+	reqs := []c01req{{raw: resp.Encode(resp.Cmd(args...)), args: args, name: strings.ToLower(kind)},
+		{raw: resp.Encode(resp.Cmd("GET", keys[0])), args: []string{"GET", keys[0]}, name: "get"}}
+	c.Send(append(append([]byte{}, reqs[0].raw...), reqs[1].raw...))
+	sched.WaitQuiescent()
+	m0.Stalled = false
+	sched.WaitQuiescent()
+	c01check(s, fmt.Sprintf("%s over %d keys of one busy node", kind, n), reqs, c)
+	sched.SetOutcome(fmt.Sprintf("%s %d", kind, n))
 }
 
 func c01schedulesBody() {
@@ -378,6 +423,7 @@ func init() {
 		return c01fragmentsBody(2)
 	})
 	reg("C01/odd-names", sched.Bounds{}, sched.Bounds{}, func(string) func() { return c01oddNamesBody })
+	reg("C01/many-in-flight", sched.Bounds{}, sched.Bounds{F: 1}, func(string) func() { return c01manyInFlightBody })
 	reg("C01/cold-start", sched.Bounds{P: 1, F: 2, Sel: 1}, sched.Bounds{P: 2, F: 2, Sel: 1}, func(string) func() { return c01coldBody })
 	reg("C01/schedules", sched.Bounds{P: 1, F: 1, Sel: 1}, sched.Bounds{P: 2, F: 1, Sel: 1}, func(string) func() { return c01schedulesBody })
 	reg("C01/two-conns", sched.Bounds{P: 1, F: 1, Sel: 1}, sched.Bounds{P: 2, F: 1, Sel: 1}, func(string) func() { return c01twoConnsBody })
